@@ -335,8 +335,35 @@ def known_findings(prop):
     return [f for f in d.get("findings", []) if f.get("property") == prop]
 
 
+GEN_OWNERS = {"Loc.lean": ("C07", "C10", "C19"), "C20.lean": ("C20",), "C18.lean": ("C18",), "C12.lean": ("C12",), "C11.lean": ("C11",), "C16.lean": ("C16",)}
+
+
+def restore_foreign_gen(prop):
+    """Gen/*.lean files are regenerated from /repo by the check of the property that owns them. The model driver links all
+    of them, so before a check runs, every Gen file it does NOT own is put back to the committed baseline (lean/GenBaseline):
+    a source change in another property's area, seen by an earlier run of that property's check, must not leak into this one."""
+    gdir = os.path.join(LEAN, "RulioModel", "Gen")
+    bdir = os.path.join(LEAN, "GenBaseline")
+    if not os.path.isdir(bdir):
+        return
+    for f in os.listdir(bdir):
+        name = f[:-4] if f.endswith(".txt") else f
+        if prop in GEN_OWNERS.get(name, ()):
+            continue
+        src, dst = os.path.join(bdir, f), os.path.join(gdir, name)
+        try:
+            want = open(src).read()
+            have = open(dst).read() if os.path.exists(dst) else None
+            if have != want:
+                with FileLock(_lean_lock):
+                    open(dst, "w").write(want)
+        except OSError:
+            pass
+
+
 class Check:
     def __init__(self, prop, level="proof"):
+        restore_foreign_gen(prop)
         self.prop = prop
         self.level = level
         self.tier = os.environ.get("VERIF_TIER") or (sys.argv[2] if len(sys.argv) > 2 and sys.argv[2] in ("quick", "thorough") else "quick")
